@@ -330,7 +330,59 @@ def remaining_seconds_rule(ctx: Ctx, rid: str):
                key=key_of(rid, rem, None, "granularity"))
 
 
+def record_only_lowered_rule(ctx: Ctx, rid: str):
+    """Outside book(), a per-task record of slotTaskUsage is only ever LOWERED to what the task really used: each element write
+    `records[i] = (task, new)` is reached under a fact that compares the previous amount with the new one (`previous > new`, or
+    `unused > 0` with unused = previous - new).  A write without it can raise a team member's record above what that member had
+    left in the slot, and the slot then holds more than its length."""
+    repo = ctx.repo
+    n = 0
+    for fn in sorted(ctx.cg.reach([repo.func("Project.schedule")]), key=lambda f: f.key):
+        if fn.name == "book" or fn.cls is None or fn.cls.name not in ("TaskScenario", "ResourceScenario"):
+            continue
+        g = cfg_of(fn)
+        facts = facts_of(fn)
+        res = local_resolver(fn.node)
+        for node in g.nodes:
+            a = node.ast
+            if not (node.kind == "stmt" and isinstance(a, ast.Assign) and len(a.targets) == 1 and isinstance(a.targets[0], ast.Subscript)
+                    and isinstance(a.value, ast.Tuple) and len(a.value.elts) == 2):
+                continue
+            base = a.targets[0].value
+            based = norm(base)
+            vals = res(base) if isinstance(base, ast.Name) else [base]
+            if "slotTaskUsage" not in based and not any("slotTaskUsage" in norm(v) for v in vals):
+                continue
+            new = norm(a.value.elts[1])
+            n += 1
+            ok = False
+            for cl in facts.at(node):
+                if len(cl) != 1:
+                    continue
+                (t, p), = tuple(cl)
+                e = lit_compare(t)
+                if not isinstance(e, ast.Compare) or len(e.ops) != 1:
+                    continue
+                l, r = norm(e.left), norm(e.comparators[0])
+                gt = isinstance(e.ops[0], ast.Gt) and p or isinstance(e.ops[0], ast.LtE) and not p
+                lt = isinstance(e.ops[0], ast.Lt) and p or isinstance(e.ops[0], ast.GtE) and not p
+                if (gt and r == new and l != new) or (lt and l == new and r != new):
+                    ok = True
+                if gt and r in ("0", "0.0") and isinstance(e.left, ast.Name):
+                    for v in res(e.left):
+                        if isinstance(v, ast.BinOp) and isinstance(v.op, ast.Sub) and norm(v.right) == new:
+                            ok = True
+            ctx.ob(rid, f"{fn.qual}: {norm(a)[:70]}", (fn, a), ok,
+                   "the record is replaced only when it held more than the new amount" if ok else
+                   f"the record is set to {new} whatever it held before: a member that had less of the slot left than the task ends up using gets "
+                   "MORE seconds on record than it booked, and the slot's records add up to more than the slot",
+                   key=key_of(rid, fn, a.value, "record only lowered"))
+    if n < 2:
+        raise AnchorMissing(f"writes of per-task usage records outside book(): {n} found (lead and team members expected)")
+
+
 def run_extra(ctx: Ctx):
+    record_only_lowered_rule(ctx, "R01.12")
     # ---------------------------------------------------------------- R01.11 the head of the start slot is set aside for every resource the task books
     offset_reservation_rule(ctx, "R01.11")
     # ---------------------------------------------------------------- R01.8 answers never come from state that outlives the question
